@@ -17,7 +17,7 @@ class Refuse(Exception):
 def is_list(t):
     return t in ("LZ", "LQ", "LB")
 
-COQ_TYPE = {"X": "XQ.t", "Z": "Z", "Q": "Q", "B": "bool", "S": "string", "LZ": "list Z", "LQ": "list Q", "LB": "list bool"}
+COQ_TYPE = {"D": "dist P", "P": "P", "EM": "ecdf_method", "IM": "iecdf_method", "X": "XQ.t", "Z": "Z", "Q": "Q", "B": "bool", "S": "string", "LZ": "list Z", "LQ": "list Q", "LB": "list bool"}
 
 def coq_type(t):
     if isinstance(t, tuple):
@@ -178,6 +178,13 @@ class Translator:
             if sym is None:
                 raise Refuse("Q binop %s" % type(op).__name__)
             return ("(%s %s %s)%%Q" % (x, sym, y), "Q")
+        sym = {ast.Add: "+", ast.Sub: "-", ast.Mult: "*", ast.Div: "/"}.get(type(op))
+        if sym and ta == "LQ" and tb in ("Z", "Q"):
+            return ("(let s__ := %s in map (fun x__ => (x__ %s s__)%%Q) %s)" % (self.toQ(b), sym, a[0]), "LQ")
+        if sym and tb == "LQ" and ta in ("Z", "Q"):
+            return ("(let s__ := %s in map (fun x__ => (s__ %s x__)%%Q) %s)" % (self.toQ(a), sym, b[0]), "LQ")
+        if sym and ta == "LQ" and tb == "LQ":
+            return ("(QL.zip2 (fun a__ b__ => (a__ %s b__)%%Q) %s %s)" % (sym, a[0], b[0]), "LQ")
         raise Refuse("binop on %s, %s" % (ta, tb))
 
     def compare(self, node, env, sp):
@@ -242,6 +249,27 @@ class Translator:
         raise Refuse("subscript %s" % ast.unparse(node))
 
     def call(self, node, env, sp):
+        # self.distribution.fit / cdf / ppf  (the distribution is a parameter D : dist P)
+        if isinstance(node.func, ast.Attribute) and isinstance(node.func.value, ast.Attribute) and \
+           isinstance(node.func.value.value, ast.Name) and node.func.value.value.id == "self" and node.func.value.attr == "distribution":
+            if "self.distribution" not in env:
+                raise Refuse("self.distribution not in spec")
+            D = env["self.distribution"][0]
+            m = node.func.attr
+            if node.keywords:
+                raise Refuse("keyword arguments to distribution.%s" % m)
+            if m == "fit" and len(node.args) == 1:
+                v, t = self.expr(node.args[0], env, sp)
+                if t == "LQ": return ("(fit %s %s)" % (D, v), "P")
+                raise Refuse("fit argument")
+            if m in ("cdf", "ppf") and len(node.args) == 2 and isinstance(node.args[1], ast.Starred):
+                v, t = self.expr(node.args[0], env, sp)
+                pf, tp = self.expr(node.args[1].value, env, sp)
+                if tp != "P": raise Refuse("%s parameters" % m)
+                if t == "LQ": return ("(map (%s %s %s) %s)" % (m, D, pf, v), "LQ")
+                if t == "Q": return ("(%s %s %s %s)" % (m, D, pf, v), "Q")
+                raise Refuse("%s argument" % m)
+            raise Refuse("distribution.%s form" % m)
         name = call_name(node)
         if name == "np.zeros_like" and len(node.args) == 1 and len(node.keywords) == 1 and node.keywords[0].arg == "dtype" \
            and isinstance(node.keywords[0].value, ast.Name) and node.keywords[0].value.id == "bool":
@@ -249,8 +277,42 @@ class Translator:
             if is_list(t):
                 return ("(repeat false (List.length %s))" % v, "LB")
             raise Refuse("zeros_like arg")
+        if name in ("ecdf", "iecdf", "quantile_map_non_parametically_with_constant_extrapolation", "quantile_map_non_parametically"):
+            kw = {}
+            pos = {"ecdf": ["x", "y", "method"], "iecdf": ["x", "p", "method"],
+                   "quantile_map_non_parametically_with_constant_extrapolation": ["x", "y", "vals", "ecdf_method", "iecdf_method"],
+                   "quantile_map_non_parametically": ["x", "y", "vals", "ecdf_method", "iecdf_method"]}[name]
+            for i_, a_ in enumerate(node.args):
+                kw[pos[i_]] = a_
+            for k_ in node.keywords:
+                if k_.arg is None: raise Refuse("**kwargs in %s" % name)
+                kw[k_.arg] = k_.value
+            ev = {k_: self.expr(v_, env, sp) for k_, v_ in kw.items()}
+            def need(k_, t_):
+                if k_ not in ev or ev[k_][1] != t_: raise Refuse("%s argument %s" % (name, k_))
+                return ev[k_][0]
+            if name == "ecdf":
+                em = need("method", "EM") if "method" in ev else "step_function"
+                return ("(let xs__ := %s in map (Ecdf.ecdf %s xs__) %s)" % (need("x", "LQ"), em, need("y", "LQ")), "LQ")
+            if name == "iecdf":
+                im = need("method", "IM") if "method" in ev else "inverted_cdf"
+                return ("(let xs__ := %s in map (Ecdf.iecdf %s xs__) %s)" % (need("x", "LQ"), im, need("p", "LQ")), "LQ")
+            em = need("ecdf_method", "EM") if "ecdf_method" in ev else "step_function"
+            im = need("iecdf_method", "IM") if "iecdf_method" in ev else "inverted_cdf"
+            f = "Ecdf.qmap_extrap" if "extrapolation" in name else "Ecdf.qmap"
+            return ("(let xs__ := %s in let ys__ := %s in map (%s %s %s xs__ ys__) %s)" % (need("x", "LQ"), need("y", "LQ"), f, em, im, need("vals", "LQ")), "LQ")
         if node.keywords:
-            raise Refuse("keyword arguments in call %s" % name)
+            # keyword call of a known scalar function: reorder by the registered parameter names
+            key0 = name.split(".")[-1]
+            if key0 in self.known and len(self.known[key0]) > 4:
+                names = self.known[key0][4]
+                kwd = {k_.arg: k_.value for k_ in node.keywords}
+                if None in kwd or len(node.args) + len(kwd) != len(names):
+                    raise Refuse("keyword call of %s" % key0)
+                node = ast.Call(func=node.func, args=list(node.args) + [kwd[n_] for n_ in names[len(node.args):]], keywords=[])
+                args = [self.expr(a, env, sp) for a in node.args]
+            else:
+                raise Refuse("keyword arguments in call %s" % name)
         if name == ".sum" and not node.args:
             v, t = self.expr(node.func.value, env, sp)
             if t == "LB":
@@ -324,17 +386,23 @@ class Translator:
         # known (already translated or prelude-modelled) functions
         key = name.split(".")[-1]
         if key in self.known:
-            cname, ptypes, rt, selfargs = self.known[key]
+            cname, ptypes, rt, selfargs = self.known[key][:4]
             if len(ptypes) != len(args):
                 raise Refuse("arity of %s" % key)
             targs = []
+            lifted = None
             for (v, t), pt in zip(args, ptypes):
                 if t != pt:
                     if pt == "Q" and t == "Z":
                         v = self.toQ((v, t))
+                    elif pt == "Q" and t == "LQ" and lifted is None and rt == "Q":
+                        lifted = v; v = "x__"
                     else:
                         raise Refuse("arg type of %s: %s vs %s" % (key, t, pt))
                 targs.append(v)
+            if lifted is not None:
+                if selfargs: raise Refuse("lifted call with self args")
+                return ("(map (fun x__ => %s %s) %s)" % (cname, " ".join(targs), lifted), "LQ")
             extra = []
             for sa in selfargs:
                 if ("self." + sa) not in env:
@@ -408,6 +476,38 @@ class Translator:
             raise Refuse("expression statement %s" % ast.unparse(s))
         if isinstance(s, ast.Pass):
             return self.block(rest, env, sp, ctx)
+        if isinstance(s, (ast.Return, ast.Assign)) and ctx.get("opt"):
+            hoisted = []
+            tr = self
+            class H(ast.NodeTransformer):
+                def visit_Call(h, n):
+                    n = h.generic_visit(n)
+                    try:
+                        key = call_name(n).split(".")[-1]
+                    except Refuse:
+                        return n
+                    if key in tr.known and isinstance(tr.known[key][2], tuple) and tr.known[key][2][0] == "OPT":
+                        nm = "opt__%d" % (len(hoisted) + len([k for k in env if k.startswith("opt__")]))
+                        hoisted.append((nm, n))
+                        return ast.Name(id=nm, ctx=ast.Load())
+                    return n
+            new_s = H().visit(copy_node(s))
+            if hoisted:
+                env2 = dict(env)
+                text_pre, text_post = "", ""
+                for nm, calln in hoisted:
+                    key = call_name(calln).split(".")[-1]
+                    cname, ptypes, rt, selfargs = self.known[key][:4]
+                    saved = self.known[key]
+                    self.known[key] = (cname, ptypes, rt[1], selfargs) + tuple(saved[4:])
+                    try:
+                        ctext, ctype = self.expr(calln, env2, sp)
+                    finally:
+                        self.known[key] = saved
+                    env2[nm] = (nm, ctype)
+                    text_pre += "match %s with None => None | Some %s => " % (ctext, nm)
+                    text_post += " end"
+                return text_pre + "(" + self.block([new_s] + rest, env2, sp, ctx) + ")" + text_post
         if isinstance(s, ast.Return):
             v, t = self.expr(s.value, env, sp)
             if sp.ret is not None and t != sp.ret:
@@ -435,6 +535,16 @@ class Translator:
                         nm = tgt.value.id
                         env2 = dict(env); env2[nm] = (nm, "LZ")
                         return "let %s := (NP.replace_eq %s %s %s) in\n  %s" % (nm, env[nm][0], a, b, self.block(rest, env2, sp, ctx))
+                if isinstance(tgt.value, ast.Name) and isinstance(tgt.slice, ast.Compare) and \
+                   isinstance(tgt.slice.left, ast.Name) and tgt.slice.left.id == tgt.value.id and \
+                   tgt.value.id in env and env[tgt.value.id][1] == "LQ" and len(tgt.slice.ops) == 1:
+                    nm = tgt.value.id
+                    lam = self.lam_over(tgt.slice, nm, env, sp, "Q")
+                    b, tb = self.expr(s.value, env, sp)
+                    if tb in ("Z", "Q"):
+                        env2 = dict(env); env2[nm] = (nm, "LQ")
+                        return "let %s := (let c__ := %s in map (fun v__ => if %s v__ then c__ else v__) %s) in\n  %s" % (
+                            nm, self.toQ((b, tb)), lam, env[nm][0], self.block(rest, env2, sp, ctx))
                 if isinstance(tgt.value, ast.Name) and isinstance(tgt.slice, ast.Slice) and tgt.slice.step is None and \
                    tgt.value.id in env and env[tgt.value.id][1] == "LB":
                     nm = tgt.value.id
@@ -547,6 +657,8 @@ class Translator:
         self.hashes[(sp.cls or "") + "." + sp.func] = hashlib.sha256(seg.encode()).hexdigest()
         env = {}
         binders = []
+        if any(t == "D" for (_, t) in sp.selfmap.values()) or any(t == "P" for t in sp.params.values()):
+            binders.append("{P : Type}")
         for attr, (cn, t) in sp.selfmap.items():
             env["self." + attr] = (cn, t)
             binders.append("(%s : %s)" % (cn, coq_type(t)))
@@ -584,13 +696,13 @@ class Translator:
             sp.ret = saved_ret
         rt = coq_type(rett) if rett else None
         if rt and has_raise:
-            rt = "option " + rt
+            rt = "option (" + rt + ")"
         if has_raise and not has_return and not sp.self_out and not is_gen:
             rt = "option unit"
         header = "Definition %s %s%s :=\n  %s." % (sp.name, " ".join(binders), (" : " + rt) if rt else "", txt)
         self.known[sp.func] = (
             sp.name, [t for t in sp.params.values()], rett if not has_raise else ("OPT", rett),
-            [a for a in sp.selfmap.keys()])
+            [a for a in sp.selfmap.keys()], list(sp.params.keys()))
         return header
 
 class YieldToReturn(ast.NodeTransformer):
